@@ -198,7 +198,7 @@ def run_targets(ctx, replay_obj, binary, known, thorough, skip_mc):
                                           data=("ok", "perm"), gen=True, tail=GEN_TAIL)),
                       ("gen-lists", cfg(rcpts=ALL_RCPTS, maxlist=2, maxtxns=1, data=("ok", "temp"),
                                         gen=True, tail=GEN_TAIL))]
-        n = 5000 if thorough else 250
+        n = 5000 if thorough else 120
         jobs = [(name, dict(workers=2, timeout=1800, cfg_text=text, heap="3g")) for name, text in focus]
         jobs.append(("sim", dict(workers=1, timeout=1800, simulate=n, depth=80, heap="3g",
                                  cfg_text=cfg(maxlist=3, maxtxns=4, data=("ok", "temp"), drop=(1,), late=(1,),
@@ -218,7 +218,7 @@ def run_targets(ctx, replay_obj, binary, known, thorough, skip_mc):
                 got = [b for b in got if b["txns"][0]["plan"]["src"] != "ok" or b["txns"][0]["plan"]["late"] > 0]
             if name == "gen-lmtp-drop":     # keep the behaviours in which the break really happens
                 got = [b for b in got if b["txns"][0]["plan"]["drop"] < len(b["txns"][0]["rcpts"])]
-            cap = 160 if name == "gen-faults" else 300
+            cap = 90 if name == "gen-faults" else 300
             if name != "sim" and not thorough and len(got) > cap:
                 got = vlib.sample(ctx.rng, got, cap)
             behs += got
